@@ -5,7 +5,7 @@
    newPackage/generatePackage over all loader answers). *)
 From Coq Require Import Permutation.
 From Verif Require Import Base.
-From Verif.Rewrite Require Import Files Tokens Names Effects.
+From Verif.Rewrite Require Import Files Tokens Names Effects Invocation.
 
 (* both flags off: whatever the loader reports, on every outcome (success, Add error,
    generator error, load/reload error, cannot generate), every file operation of the run is
@@ -138,3 +138,42 @@ Theorem C10_name_of_order_irrelevant : forall l l' ty,
   NoDup (map snd l) -> Permutation l l' -> name_of_list l ty = name_of_list l' ty.
 Proof. exact name_of_perm. Qed.
 Print Assumptions C10_name_of_order_irrelevant.
+
+(* ---- a whole invocation: where the operations land (Rewrite/Invocation.v) ---- *)
+
+(* a package the loader reports without source files (a directory with only an external test
+   package, only excluded files, no Go file) causes no file operation, wherever goderive was
+   started and whatever the flags: it has no directory, so no derived.gen.go is "its" *)
+Theorem C10_sourceless_package_no_operation :
+  forall pg wm fmt gen cwd fl dir v rest,
+  p_files v = [] -> located pg wm fmt gen true cwd fl (dir, v :: rest) = [].
+Proof. exact sourceless_package_no_operation. Qed.
+Print Assumptions C10_sourceless_package_no_operation.
+
+(* every operation of an invocation (packages in order, stop at the first error) lands in the
+   directory of one of its packages that has source files, and is an operation of that package's run *)
+Theorem C10_invocation_stays_in_named_directories :
+  forall pg wm fmt gen cwd fl pkgs d o,
+  In (d, o) (inv_run pg wm fmt gen true cwd fl pkgs) ->
+  exists e, In e pkgs /\ pkg_dir (fst e) (snd e) = Some d /\
+            In o (fst (run pg wm fmt gen fl (snd e))).
+Proof. exact invocation_stays_in_named_directories. Qed.
+Print Assumptions C10_invocation_stays_in_named_directories.
+
+(* without flags: derived.gen.go of such a directory, nothing else, on every outcome *)
+Theorem C10_invocation_without_flags :
+  forall pg wm fmt gen cwd pkgs d o,
+  In (d, o) (inv_run pg wm fmt gen true cwd {| autoname := false; dedup := false |} pkgs) ->
+  op_path o = Derived /\ exists e, In e pkgs /\ pkg_dir (fst e) (snd e) = Some d.
+Proof. exact invocation_without_flags. Qed.
+Print Assumptions C10_invocation_without_flags.
+
+(* without the `fullpath == ""` guard of pkg.Delete (the tree before 67fe608) the working
+   directory's derived.gen.go is removed although no package of the invocation lives there *)
+Theorem C10_unguarded_delete_hits_working_directory_refuted :
+  exists cwd pkgs,
+    In (cwd, ORemove Derived)
+       (inv_run true Trunc toy_fmt10 toy_gen10 false cwd {| autoname := false; dedup := false |} pkgs) /\
+    forall e, In e pkgs -> fst e <> cwd.
+Proof. exact unguarded_delete_hits_working_directory_refuted. Qed.
+Print Assumptions C10_unguarded_delete_hits_working_directory_refuted.
